@@ -127,7 +127,7 @@ impl Model {
                 if rib.kind == RibKind::Locals && crossed {
                     // a local seen from inside a const: the documentation says locals are never visible there;
                     // whether an outer const of the same name becomes visible again is not settled -> unspecified
-                    let outer_exists = self.ribs[..i].iter().any(|r| r.map.contains_key(name)) || ALIASES.contains(&name) || BUILTINS.contains(&name);
+                    let outer_exists = self.ribs[..i].iter().any(|r| r.map.contains_key(name)) || ALIASES.contains(&name) || BUILTINS.contains(&name) || ENUMS.with(|e| e.borrow().iter().any(|n| n == name));
                     return if outer_exists { Res::Unspecified } else { Res::Error(format!("local {} used inside a const", name)) };
                 }
                 if !first { self.shadow = true; }
@@ -135,6 +135,7 @@ impl Model {
             }
             if self.ribs[..i].iter().any(|r| r.map.contains_key(name)) { first = false; }
         }
+        if ENUMS.with(|e| e.borrow().iter().any(|n| n == name)) { return Res::Global(format!("enum:{}", name)); }
         if BUILTINS.contains(&name) { return Res::Global(format!("builtin:{}", name)); }
         if ALIASES.contains(&name) { return if in_const { Res::Error(format!("register alias {} in const context", name)) } else { Res::Global(format!("alias:{}", name)) }; }
         Res::Error(format!("unknown name {}", name))
@@ -234,6 +235,9 @@ impl Model {
     }
     fn new_decl_id(&mut self) -> usize { self.occ.len() * 1000 + self.ribs.len() * 7 + self.errors + { NEXT.with(|n| { let v = n.get(); n.set(v + 1); v }) } * 1_000_000 }
 }
+/// enum consts declared by the case's mapfile (name -> value): they shadow register aliases of the same name (the repo's own
+/// test `sprite_shadows_reg_alias` names the rule) and are usable in const context
+thread_local! { static ENUMS: std::cell::RefCell<Vec<String>> = std::cell::RefCell::new(vec![]); }
 thread_local! { static FNS: std::cell::Cell<bool> = std::cell::Cell::new(false); }
 thread_local! { static NEXT: std::cell::Cell<usize> = std::cell::Cell::new(1); }
 
@@ -320,7 +324,7 @@ fn rename(b: &[S], occ: &[(String, Res)], k: &mut usize, names: &mut BTreeMap<us
     fn nm(orig: &str, occ: &[(String, Res)], k: &mut usize, names: &mut BTreeMap<usize, String>) -> String {
         let (n, r) = &occ[*k]; *k += 1;
         debug_assert_eq!(n, orig);
-        match r { Res::Decl(d) => { let l = names.len(); names.entry(*d).or_insert_with(|| format!("fresh_{}", l)).clone() } _ => orig.to_string() }
+        match r { Res::Decl(d) => { let l = names.len(); names.entry(*d).or_insert_with(|| format!("fresh_{}", l)).clone() } Res::Global(g) if g.starts_with("enum:") => format!("fresh_enum_{}", &g[5..]), _ => orig.to_string() }
     }
     fn ex(e: &E, occ: &[(String, Res)], k: &mut usize, names: &mut BTreeMap<usize, String>) -> E {
         match e { E::Lit(x) => E::Lit(*x), E::Name(n) => E::Name(nm(n, occ, k, names)), E::Add(a, b) => { let a2 = ex(a, occ, k, names); let b2 = ex(b, occ, k, names); E::Add(Box::new(a2), Box::new(b2)) } }
@@ -345,7 +349,7 @@ impl Property for C10 {
     }
     fn tape_len(&self, tier: Tier) -> usize { tier.pick(150, 300) }
     fn cases(&self, tier: Tier) -> u32 { tier.pick(200000, 4000000) }
-    fn required_labels(&self, _tier: Tier) -> Vec<&'static str> { vec!["model:ok", "model:error", "shadowing", "forward_ref", "redeclared", "const_barrier_use", "functions", "function_barrier_use", "renamed_compiled", "two-languages", "two-languages:same-spelling"] }
+    fn required_labels(&self, _tier: Tier) -> Vec<&'static str> { vec!["model:ok", "model:error", "shadowing", "forward_ref", "redeclared", "const_barrier_use", "functions", "function_barrier_use", "enum-consts", "enum-const-shadows-alias", "renamed_compiled", "two-languages", "two-languages:same-spelling"] }
 
     fn generate(&self, tape: &mut Tape, tier: Tier, _known: &Known) -> Value {
         if tape.chance(1, 8) {
@@ -376,18 +380,27 @@ impl Property for C10 {
         let mut weighted: Vec<&str> = vec![]; for _ in 0..3 { weighted.extend(POOL); } weighted.extend(ALIASES); weighted.extend(BUILTINS);
         let mut budget = tier.pick(14, 24);
         let globals: Vec<String> = ALIASES.iter().chain(BUILTINS.iter()).map(|s| s.to_string()).collect();
+        // sometimes the mapfile declares enum consts: one spelled like a register alias, one like a pool name, one fresh
+        let enums: Vec<String> = if tape.chance(1, 3) { let mut v = vec![]; if tape.bool() { v.push((*tape.pick(ALIASES)).to_string()); } if tape.chance(1, 3) { v.push((*tape.pick(POOL)).to_string()); } if v.is_empty() || tape.bool() { v.push("ek".to_string()); } v } else { vec![] };
+        if !enums.is_empty() { weighted.push("ek"); for e in &enums { if e == "ek" { weighted.push("ek"); } } }
         let with_fns = tape.bool();
         FNS.with(|f| f.set(with_fns));
         let b = gen_block(tape, 3, &mut budget, &weighted, &globals);
         FNS.with(|f| f.set(false));
-        json!({"tree": s_to_json(&b), "functions": with_fns})
+        json!({"tree": s_to_json(&b), "functions": with_fns, "enums": enums})
     }
 
     fn check(&self, case: &Value, ctx: &mut CheckCtx) -> Outcome {
         if case["mode"] == "two-languages" { return check_two_languages(case, ctx); }
         let tree = s_from_json(&case["tree"]);
         let mut text = String::from("{\n"); print_block(&tree, 1, &mut text); text.push_str("}\n");
+        let enums: Vec<String> = case["enums"].as_array().map(|a| a.iter().map(|x| x.as_str().unwrap().to_string()).collect()).unwrap_or_default();
+        ENUMS.with(|e| *e.borrow_mut() = enums.clone());
         let m = run_model(&tree);
+        ENUMS.with(|e| e.borrow_mut().clear());
+        if !enums.is_empty() { ctx.label("enum-consts"); }
+        if enums.iter().any(|e| ALIASES.contains(&e.as_str())) && m.occ.iter().any(|(_, r)| matches!(r, Res::Global(g) if g.starts_with("enum:") && ALIASES.contains(&&g[5..]))) { ctx.label("enum-const-shadows-alias"); ctx.nontrivial(); }
+        let enum_section = |prefix: &str| -> String { if enums.is_empty() { String::new() } else { format!("!enum(name=\"TestEnum\")\n{}", enums.iter().enumerate().map(|(i, n)| format!("{} {}{}\n", 40 + i, prefix, n)).collect::<String>()) } };
         let model_ok = m.errors == 0;
         ctx.label(if model_ok { "model:ok" } else { "model:error" });
         if m.shadow { ctx.label("shadowing"); }
@@ -401,12 +414,12 @@ impl Property for C10 {
         if unspecified { ctx.label("unspecified_shape"); }
         let spec = default_lang();
         let hooks = spec.hooks();
-        let mut all_names: Vec<&str> = POOL.to_vec(); all_names.extend(ALIASES); all_names.extend(BUILTINS); all_names.extend(FPOOL);
+        let mut all_names: Vec<&str> = POOL.to_vec(); all_names.extend(ALIASES); all_names.extend(BUILTINS); all_names.extend(FPOOL); all_names.push("ek");
         let tokens = ident_tokens(&text, &all_names);
         if tokens.len() != m.occ.len() || tokens.iter().zip(m.occ.iter()).any(|(t, o)| t.1 != o.0) { return Outcome::Discard("harness: token/occurrence mismatch".into()); }
 
         let r = tx::with_truth(|truth| -> Outcome {
-            if truth.apply_mapfile_str(&spec.mapfile_text(), truth::Game::Th10).is_err() { return Outcome::Discard("mapfile".into()); }
+            if truth.apply_mapfile_str(&format!("{}{}", spec.mapfile_text(), enum_section("")), truth::Game::Th10).is_err() { return Outcome::Discard("mapfile".into()); }
             let mut block = match truth.parse::<ast::Block>("<input>", text.as_bytes()) { Ok(b) => b.value, Err(e) => { e.ignore(); return Outcome::Fail(Failure::new("c10:parse-error", format!("{}\n{}", tx::diags(truth), text))); } };
             let c = truth.ctx();
             if let Err(e) = truth::passes::resolution::assign_languages(&mut block, truth::LanguageKey::Anm, c) { e.ignore(); return Outcome::Discard("assign_languages".into()); }
@@ -440,8 +453,8 @@ impl Property for C10 {
         let mut k = 0; let mut fresh = BTreeMap::new();
         let renamed = rename(&tree, &m.occ, &mut k, &mut fresh);
         let mut text2 = String::from("{\n"); print_block(&renamed, 1, &mut text2); text2.push_str("}\n");
-        let compile = |t: &str| tx::with_truth(|truth| tx::compile_body(truth, &spec, &hooks, t, tx::PipeOpts::default()).map(|c| tx::to_minstrs(&c.instrs)).map_err(|s| format!("{:?}: {}", s, tx::diags(truth).lines().next().unwrap_or("").to_string())));
-        let (a, b) = (compile(&text), compile(&text2));
+        let compile = |t: &str, prefix: &str| tx::with_truth(|truth| tx::compile_body_with(truth, &format!("{}{}", spec.mapfile_text(), enum_section(prefix)), truth::Game::Th10, &hooks, t, tx::PipeOpts::default()).map(|c| tx::to_minstrs(&c.instrs)).map_err(|s| format!("{:?}: {}", s, tx::diags(truth).lines().next().unwrap_or("").to_string())));
+        let (a, b) = (compile(&text, ""), compile(&text2, "fresh_enum_"));
         match (a, b) {
             (Ok(x), Ok(y)) => { ctx.label("renamed_compiled"); if x == y { Outcome::Pass } else { Outcome::Fail(Failure::new("c10:renaming-changes-output", format!("{}\n---\n{}\n{}\nvs\n{}", text, text2, super::c02::dump(&x), super::c02::dump(&y)))) } }
             (Err(x), Err(y)) => { if x.split(':').next() == y.split(':').next() { Outcome::Pass } else { Outcome::Fail(Failure::new("c10:renaming-changes-failure-stage", format!("{} vs {}\n{}\n---\n{}", x, y, text, text2))) } }
